@@ -339,3 +339,15 @@ def c_build_attribute(P):
     k2, cp = outcome(P, lambda: P.getattr(res, "canonical_path"))
     P.prove("chain_canonical_path_is_that_of_its_last_name", k2 == "ok" and new.ident is not None and zstr(cp).eq(CP(new.ident)) if new.ident is not None else k2 == "ok")
     P.cover("_build_attribute")
+
+
+# --------------------------------------------------------------------------- class statements: where the names of bases and decorators are bound
+from contracts import C01 as _C01  # noqa: E402  (the visit_classdef fixture and driver live with the C01 handler contracts)
+
+
+@contract("C04", "visit_classdef.bases_and_decorators_scope", [VS + "visit_classdef"], floor=5, replay="replay_scoping", split=16)
+def c_classdef_scope(P):
+    """Python evaluates the decorators and base classes of a class statement in the scope the statement stands in, before the class body exists: the
+    expressions Griffe stores for them are given that scope (the scope current on entry), the class body is visited with the class as scope, and the
+    scope is restored afterwards."""
+    _C01.visit_classdef_driver(P, "C04")
